@@ -15,9 +15,10 @@ CONFIG = {
         "reference hierarchy and predicate P in coq/theories/Dir/Spec.v (finite maps + removed flag + link counts; ghost birth stamps)",
         "harness fakes: file allocator, symlink factory, handle allocator, leaves with counted Link/Unlink; verif hook VerifLockIsFree (TryLock+Unlock)",
         "Go harness, Gallina printer, case evaluator Corr.v (P on implementation traces)",
+        "front-end adapter harness/cmd/dir/front*.go + coq/theories/Dir/Front.v: the harness plays the FUSE kernel (node ids, lookup counts, offsets) and an NFSv4.1 client (one session, PUTFH by handle); statuses and offsets are decoded by Front.v functions inside the case files (proved inverse to the Go encodings on all statuses the directory code returns, offsets strictly monotone); canonicalisation rules listed in docs/areas/Dir.md (what a front end does not transport is taken from the dump: FUSE change counters/ChangeInfo)",
     ],
     "manifest": {
-        "level_text": "Theorems in Coq about a transcription of inMemoryPrepopulatedDirectory (all Virtual* calls and the worker-facing bulk calls) for all operation sequences: refinement of a reference POSIX-style hierarchy, completeness/no-duplication of paginated listings under interleaved mutation, strict monotonicity of change counters; tied to the Go code by a differential correspondence check whose oracle is the proved model and whose monitor is the proved predicate P.",
+        "level_text": "Theorems in Coq about a transcription of inMemoryPrepopulatedDirectory (all Virtual* calls and the worker-facing bulk calls) for all operation sequences: refinement of a reference POSIX-style hierarchy, completeness/no-duplication of paginated listings under interleaved mutation, strict monotonicity of change counters; tied to the Go code by a differential correspondence check whose oracle is the proved model and whose monitor is the proved predicate P; the same histories are also delivered through the FUSE RawFileSystem and NFSv4.1 COMPOUND front ends and judged by the same monitor (theorem front_readdir_complete transfers the listing property to offsets).",
         "level_note": "Trusted: Coq kernel+VM, hand-written model (checked by correspondence on generated histories), reference hierarchy, Go harness and fakes. Lazily fetched non-empty initial contents are C17. Known finding: rename of a directory into its own descendant is not refused (theorems carry the hypothesis no_rename_into_own_descendant).",
         "technique": "machine-checked proof in Coq (simulation between model and reference hierarchy, invariants over all histories) + model/implementation correspondence evaluated with vm_compute",
         "design_ref": "DESIGN.md §4 Dir — C13",
@@ -26,5 +27,7 @@ CONFIG = {
         "histories are sequential except for one scripted race (VirtualReadDir dropping its lock while a mutation of the same directory runs); other interleavings and LockPile ordering are not explored (C14 covers lock balance)",
         "uint64 change counters modelled as N (no wrap-around)",
         "directories are created with EmptyInitialContentsFetcher (lazy non-empty contents: C17)",
+        "front ends: in process, no kernel and no network (FUSE: fuse.NewSimpleRawFileSystem called directly, without Init/mount; NFSv4.1: NfsV4Nfsproc4Compound called directly, one client/session/slot, frozen clock); the kernel's dentry/attribute caching and an NFS client's caching are not modelled; NFSv4.0's copies of the directory operations are not driven",
+        "calls the front end cannot deliver (FUSE: node not held by the kernel; NFSv4: stale handle of a removed directory; link of a file without links) use the direct API or are not sent; counted in the evidence histograms (<method>@<front>:direct-fallback)",
     ],
 }
